@@ -36,7 +36,9 @@ var scalarPool = []string{"a", "b", "1", "x y", "true", "null", "~", "a ", " a",
 	"1.0", "01", "3.1", "3.10", "1e1", "10", "0x1",
 	// spellings that differ from a YAML keyword in letter case only: other strings
 	"True", "tRuE", "FALSE", "false", "fALSE", "Null", "A"}
-var exprPool = []string{"${{ matrix.v }}", "${{ fromJSON(env.X) }}", "pre-${{ github.sha }}"}
+var exprPool = []string{"${{ matrix.v }}", "${{ fromJSON(env.X) }}", "pre-${{ github.sha }}",
+	// closing braces in the text before the placeholder (a Go template, JSON)
+	"c }} ${{ github.ref }}", "{{.x}} ${{ github.sha }}"}
 var objKeyPool = []string{"name", "m", "ver", "Name", "z"}
 var rowKeyPool = []string{"os", "ver", "arch", "OS", "node"}
 
@@ -533,7 +535,12 @@ func runRule(w *actionlint.Workflow) ([]obs, error) {
 
 func isExpr(v actionlint.RawYAMLValue) bool {
 	s, ok := v.(*actionlint.RawYAMLString)
-	return ok && actionlint.ContainsExpression(s.Value)
+	if !ok {
+		return false
+	}
+	// (from the property text, not from the implementation: a placeholder is `${{` with `}}` after it)
+	i := strings.Index(s.Value, "${{")
+	return i >= 0 && strings.Contains(s.Value[i+3:], "}}")
 }
 
 // structural equality, mappings as finite maps
